@@ -145,6 +145,7 @@ struct Exec {
     std::string opname;
     sim::OpenPolicy knobs;   // benign environment knobs, persistent
     uint64_t seed = 0;
+    uint64_t sched_hash = 0x1234;
 
     Exec(const J& p, const ExecOptions& o) : plan(p), opt(o) {}
 
@@ -1161,6 +1162,560 @@ struct Exec {
         }
     }
 
+
+    // ============================================================= C17: partial / alternative readers
+    static std::vector<std::string> sorted(std::vector<std::string> v) {
+        std::sort(v.begin(), v.end());
+        return v;
+    }
+
+    void op_info_check(const J& op) {
+        std::string file = op.gets("file");
+        if (!W->fs.exists(file)) return;
+        FileInfo& fi = finfo[file];
+        J ctx = J::obj();
+        ctx.set("file_state", "complete");
+        ctx.set("writer", fi.writer);
+        gdspeer::Decoded& d = truth(file);
+        if (!d.ok) return;
+        LibraryInfo info = {};
+        ErrorCode ec = ErrorCode::NoError;
+        bool returned = guarded([&]() { ec = gds_info(file.c_str(), info); });
+        count("info_check");
+        feature_state("info_check", fi.model, fi.writer == "peer", 0);
+        if (returned) {
+            if (ec != ErrorCode::NoError) {
+                viol("C17", "complete_file_rejected", std::string("gds_info returned ") + bridge::error_name(ec) + " for a complete file", ctx);
+            } else {
+                // against the full reader
+                ErrorCode ec2 = ErrorCode::NoError;
+                bool r2 = false;
+                J none = J::obj();
+                Library lib = do_read_gds(file, none, ec2, r2);
+                if (r2) {
+                    std::vector<std::string> names_info, names_full;
+                    for (uint64_t i = 0; i < info.cell_names.count; i++) names_info.push_back(info.cell_names[i]);
+                    uint64_t np = 0, nw = 0, nr = 0, nl = 0;
+                    std::set<uint64_t> stags, ltags;
+                    for (uint64_t i = 0; i < lib.cell_array.count; i++) {
+                        Cell* c = lib.cell_array[i];
+                        names_full.push_back(c->name ? c->name : "");
+                        np += c->polygon_array.count;
+                        nw += c->flexpath_array.count + c->robustpath_array.count;
+                        nr += c->reference_array.count;
+                        nl += c->label_array.count;
+                        for (uint64_t k = 0; k < c->polygon_array.count; k++) stags.insert(c->polygon_array[k]->tag);
+                        for (uint64_t k = 0; k < c->flexpath_array.count; k++)
+                            for (uint64_t e = 0; e < c->flexpath_array[k]->num_elements; e++) stags.insert(c->flexpath_array[k]->elements[e].tag);
+                        for (uint64_t k = 0; k < c->label_array.count; k++) ltags.insert(c->label_array[k]->tag);
+                    }
+                    std::set<uint64_t> istags, iltags;
+                    guarded([&]() {
+                        for (SetItem<Tag>* it = info.shape_tags.next(NULL); it; it = info.shape_tags.next(it)) istags.insert(it->value);
+                        for (SetItem<Tag>* it = info.label_tags.next(NULL); it; it = info.label_tags.next(it)) iltags.insert(it->value);
+                    });
+                    auto fail = [&](const std::string& clause, const std::string& what) { viol("C17", clause, what, ctx); };
+                    if (sorted(names_info) != sorted(names_full))
+                        fail("info_cell_names", "gds_info lists " + std::to_string(names_info.size()) + " cell names, the full load has " + std::to_string(names_full.size()) + " cells (or the names differ)");
+                    else if (info.num_polygons != np)
+                        fail("info_num_polygons", "gds_info counts " + std::to_string(info.num_polygons) + " polygons, the full load holds " + std::to_string(np));
+                    else if (info.num_paths != nw)
+                        fail("info_num_paths", "gds_info counts " + std::to_string(info.num_paths) + " paths, the full load holds " + std::to_string(nw));
+                    else if (info.num_references != nr)
+                        fail("info_num_references", "gds_info counts " + std::to_string(info.num_references) + " references, the full load holds " + std::to_string(nr));
+                    else if (info.num_labels != nl)
+                        fail("info_num_labels", "gds_info counts " + std::to_string(info.num_labels) + " labels, the full load holds " + std::to_string(nl));
+                    else if (istags != stags)
+                        fail("info_shape_tags", "gds_info reports " + std::to_string(istags.size()) + " shape tags, the full load uses " + std::to_string(stags.size()) + " (or the sets differ)");
+                    else if (iltags != ltags)
+                        fail("info_label_tags", "gds_info reports " + std::to_string(iltags.size()) + " label tags, the full load uses " + std::to_string(ltags.size()) + " (or the sets differ)");
+                    else if (!canon::rel_close(info.unit, lib.unit) || !canon::rel_close(info.precision, lib.precision))
+                        fail("info_units", "gds_info unit/precision " + canon::real_str(info.unit) + "/" + canon::real_str(info.precision) + " differ from the full load " + canon::real_str(lib.unit) + "/" + canon::real_str(lib.precision));
+                    // and against the independent decoder
+                    else if (sorted(names_info) != sorted(d.cell_names) || info.num_polygons != d.num_polygons || info.num_paths != d.num_paths ||
+                             info.num_references != d.num_references || info.num_labels != d.num_labels)
+                        fail("info_vs_peer", "gds_info summary differs from the independent decoder's census of the same bytes");
+                    guarded([&]() { lib.free_all(); });
+                }
+            }
+        }
+        guarded([&]() { info.clear(); });
+        drain_seam_violations(prop, ctx);
+        check_handles(prop, ctx);
+    }
+
+    // canonical lines of one cell of a loaded library
+    bool load_canon(const std::string& file, canon::CLib& out, ErrorCode& ec) {
+        bool returned = false;
+        J none = J::obj();
+        Library lib = do_read_gds(file, none, ec, returned);
+        if (!returned) return false;
+        bridge::ExtractOptions xo;
+        bool ok = guarded([&]() { out = bridge::extract(lib, xo); });
+        guarded([&]() { lib.free_all(); });
+        return ok;
+    }
+
+    void op_raw_open(const J& op) {
+        std::string file = op.gets("file"), slot = op.gets("slot");
+        if (!W->fs.exists(file) || raws.count(slot)) return;
+        J ctx = J::obj();
+        ctx.set("file_state", "complete");
+        ctx.set("writer", finfo[file].writer);
+        gdspeer::Decoded& d = truth(file);
+        RawHold h;
+        ErrorCode ec = ErrorCode::NoError;
+        bool returned = guarded([&]() { h.map = read_rawcells(file.c_str(), &ec); });
+        count("raw_open");
+        if (!returned) {
+            drain_seam_violations(prop, ctx);
+            check_handles(prop, ctx);
+            return;
+        }
+        h.src = file;
+        h.alive = true;
+        for (MapItem<RawCell*>* it = h.map.next(NULL); it; it = h.map.next(it)) {
+            h.cells.push_back(it->value);
+            h.names.push_back(it->value->name ? it->value->name : "");
+            h.gone.push_back(false);
+        }
+        h.live = h.cells.size();
+        if (d.ok) {
+            bool dangling = false;
+            std::set<std::string> have(d.cell_names.begin(), d.cell_names.end());
+            for (auto& sr : d.structs)
+                for (auto& n : sr.snames)
+                    if (!have.count(n)) dangling = true;
+            if (ec != ErrorCode::NoError && !(dangling && ec == ErrorCode::MissingReference))
+                viol("C17", "complete_file_rejected", std::string("read_rawcells returned ") + bridge::error_name(ec) + " for a complete file", ctx);
+            else if (sorted(h.names) != sorted(d.cell_names))
+                viol("C17", "rawcell_names", "read_rawcells returned " + std::to_string(h.names.size()) + " cells, the file holds " + std::to_string(d.cell_names.size()) + " structures (or the names differ)", ctx);
+        }
+        raws[slot] = h;
+        drain_seam_violations(prop, ctx);
+        check_handles(prop, ctx);
+    }
+
+    // indices (closed under dependencies) of the raw cells selected by `pick`
+    std::vector<size_t> raw_selection(RawHold& h, const J& pick) {
+        std::set<size_t> sel;
+        std::vector<size_t> work;
+        for (auto& p : pick.a)
+            if (!h.cells.empty()) work.push_back((size_t)((uint64_t)p.i % h.cells.size()));
+        while (!work.empty()) {
+            size_t i = work.back();
+            work.pop_back();
+            if (h.gone[i] || !sel.insert(i).second) continue;
+            RawCell* rc = h.cells[i];
+            for (uint64_t k = 0; k < rc->dependencies.count; k++)
+                for (size_t j = 0; j < h.cells.size(); j++)
+                    if (h.cells[j] == rc->dependencies[k]) work.push_back(j);
+        }
+        return std::vector<size_t>(sel.begin(), sel.end());
+    }
+
+    void raw_mark_drained(RawHold& h, size_t i) {
+        if (!h.gone[i] && h.cells[i]->source == NULL) {
+            // the cell now owns its bytes; it no longer keeps the source open
+            h.gone[i] = true;
+            h.live--;
+        }
+    }
+
+    // compare the cells `names` of file `dest` with the same cells of `src_canon`
+    void compare_copied(const std::string& dest, const std::vector<std::string>& names, const canon::CLib& src_canon, const J& ctx) {
+        canon::CLib got;
+        ErrorCode ec = ErrorCode::NoError;
+        if (!load_canon(dest, got, ec)) return;
+        for (auto& n : names) {
+            auto a = src_canon.cells.find(n);
+            auto b = got.cells.find(n);
+            if (a == src_canon.cells.end()) continue;
+            if (b == got.cells.end()) {
+                viol("C17", "rawcell_copy_missing", "raw cell '" + n + "' copied into " + dest + " is not there when the file is loaded (read code " + bridge::error_name(ec) + ")", ctx);
+                return;
+            }
+            canon::CLib ea, eb;
+            ea.precision = eb.precision = 1;
+            ea.cells[n] = a->second;
+            eb.cells[n] = b->second;
+            std::string clause, why;
+            if (canon::differ(ea, eb, false, clause, why)) {
+                viol("C17", "rawcell_copy_" + clause, "raw cell copied into " + dest + " loads differently from the original: " + why, ctx);
+                return;
+            }
+        }
+        if (!canon::rel_close(got.unit, src_canon.unit) || !canon::rel_close(got.precision, src_canon.precision)) {
+            // units are the caller's business (the new library was given the source's units)
+            count("rawcopy_units_differ");
+        }
+    }
+
+    void op_raw_drain(const J& op) {
+        std::string slot = op.gets("slot"), dest = op.gets("file");
+        if (!raws.count(slot) || !raws[slot].alive) return;
+        RawHold& h = raws[slot];
+        // precondition of the property ("into another file"): never write over a file that is held open
+        for (auto& kv : raws)
+            if (kv.second.alive && kv.second.live > 0 && kv.second.src == dest) return;
+        for (auto& kv : writers)
+            if (kv.second.open && kv.second.file == dest) return;
+        std::vector<size_t> sel = raw_selection(h, op.at("pick"));
+        if (sel.empty()) return;
+        J ctx = J::obj();
+        ctx.set("via", "lib");
+        ctx.set("writer", finfo[h.src].writer);
+        // what the source loads to at this instant
+        canon::CLib src_canon;
+        ErrorCode ecs = ErrorCode::NoError;
+        bool have_src = load_canon(h.src, src_canon, ecs);
+        gdspeer::Decoded& d = truth(h.src);
+        Library lib = {};
+        ErrorCode ec = ErrorCode::NoError;
+        tm ts;
+        bool have_ts = tm_from_json(op.at("ts"), ts);
+        std::vector<std::string> names;
+        bool ok = guarded([&]() {
+            lib.init("RAWCOPY", d.ok ? d.lib.unit : 1e-6, d.ok ? d.lib.precision : 1e-9);
+            for (size_t i : sel) {
+                lib.rawcell_array.append(h.cells[i]);
+                names.push_back(h.names[i]);
+            }
+            set_policy(op);
+            ec = lib.write_gds(dest.c_str(), 0, have_ts ? &ts : NULL);
+        });
+        clear_policy();
+        guarded([&]() { lib.clear(); });
+        count("raw_drain_lib");
+        count("raw_cells_copied", sel.size());
+        for (size_t i : sel) raw_mark_drained(h, i);
+        FileInfo fi;
+        fi.fmt = "gds";
+        fi.writer = "rawcopy";
+        finfo[dest] = fi;
+        if (ok && ec != ErrorCode::NoError)
+            viol("C17", "rawcell_copy_error", std::string("write_gds of raw cells returned ") + bridge::error_name(ec), ctx);
+        drain_seam_violations(prop, ctx);
+        check_handles(prop, ctx);
+        if (ok && have_src) compare_copied(dest, names, src_canon, ctx);
+        drain_seam_violations(prop, ctx);
+        check_handles(prop, ctx);
+    }
+
+    void op_raw_clear(const J& op) {
+        std::string slot = op.gets("slot");
+        if (!raws.count(slot) || !raws[slot].alive) return;
+        RawHold& h = raws[slot];
+        J ctx = J::obj();
+        sim::Rng r((uint64_t)op.geti("order"));
+        std::vector<size_t> order;
+        for (size_t i = 0; i < h.cells.size(); i++) order.push_back(i);
+        for (size_t i = order.size(); i > 1; i--) std::swap(order[i - 1], order[r.below(i)]);
+        uint64_t limit = op.has("count") ? (uint64_t)op.geti("count") : order.size();
+        uint64_t done = 0;
+        for (size_t i : order) {
+            if (done >= limit) break;
+            if (h.cells[i] == nullptr) continue;
+            bool held = !h.gone[i];
+            guarded([&]() {
+                h.cells[i]->clear();
+                free_allocation(h.cells[i]);
+            });
+            h.cells[i] = nullptr;
+            if (held) {
+                h.gone[i] = true;
+                h.live--;
+            }
+            done++;
+            drain_seam_violations(prop, ctx);
+            check_handles(prop, ctx);
+        }
+        bool all = true;
+        for (auto* c : h.cells) all = all && c == nullptr;
+        if (all) {
+            guarded([&]() { h.map.clear(); });
+            h.alive = false;
+        }
+        count("raw_clear");
+    }
+
+    void release_raw(RawHold& h) {
+        for (size_t i = 0; i < h.cells.size(); i++) {
+            if (!h.cells[i]) continue;
+            guarded([&]() {
+                h.cells[i]->clear();
+                free_allocation(h.cells[i]);
+            });
+            h.cells[i] = nullptr;
+        }
+        guarded([&]() { h.map.clear(); });
+        h.live = 0;
+        h.alive = false;
+    }
+
+    // ------------------------------------------------------------- incremental writer sessions
+    void op_writer_open(const J& op) {
+        std::string w = op.gets("w"), file = op.gets("file");
+        if (writers.count(w)) return;
+        for (auto& kv : raws)
+            if (kv.second.alive && kv.second.live > 0 && kv.second.src == file) return;
+        for (auto& kv : writers)
+            if (kv.second.open && kv.second.file == file) return;
+        int k = (int)op.geti("model", -1);
+        WriterSess s;
+        s.file = file;
+        s.model = k;
+        double unit = 1e-6, precision = 1e-9;
+        std::string slot = op.gets("units_of");
+        if (raws.count(slot) && truth(raws[slot].src).ok) {
+            unit = truth(raws[slot].src).lib.unit;
+            precision = truth(raws[slot].src).lib.precision;
+        } else if (k >= 0 && k < (int)models.size()) {
+            unit = models[k].unit;
+            precision = models[k].precision;
+        }
+        tm ts;
+        bool have_ts = tm_from_json(op.at("ts"), ts);
+        tm given = ts;
+        if (!have_ts) sim::civil_from_time(W->clock.now, &given);
+        ErrorCode ec = ErrorCode::NoError;
+        J ctx = J::obj();
+        bool ok = guarded([&]() {
+            if (k >= 0 && k < (int)models.size()) s.built = bridge::build(models[k]);
+            set_policy(op);
+            s.w = gdswriter_init(file.c_str(), "SESSION", unit, precision, 0, have_ts ? &ts : NULL, &ec);
+        });
+        clear_policy();
+        if (ok && s.w.out) {
+            s.open = true;
+            FileInfo fi;
+            fi.fmt = "gds";
+            fi.writer = "session";
+            fi.ts_known = true;
+            fi.ts = ts6(given);
+            fi.model = k;
+            finfo[file] = fi;
+            writers[w] = s;
+            count("writer_open");
+        } else if (s.built.alive) {
+            guarded([&]() { s.built.destroy(); });
+        }
+        drain_seam_violations(prop, ctx);
+        check_handles(prop, ctx);
+    }
+
+    std::map<std::string, std::vector<std::string>> session_raw_names;   // writer -> raw cell names written
+    std::map<std::string, canon::CLib> session_src_canon;                // writer -> canon of the raw source at copy time
+    std::map<std::string, std::vector<std::string>> session_cell_names;  // writer -> fresh cell names written
+
+    void op_writer_cell(const J& op) {
+        std::string w = op.gets("w");
+        if (!writers.count(w) || !writers[w].open) return;
+        WriterSess& s = writers[w];
+        if (!s.built.alive || s.built.lib.cell_array.count == 0) return;
+        uint64_t i = (uint64_t)op.geti("cell") % s.built.lib.cell_array.count;
+        Cell* c = s.built.lib.cell_array[i];
+        for (auto& n : session_cell_names[w])
+            if (n == c->name) return;  // a structure name may appear once per file
+        for (auto& n : session_raw_names[w])
+            if (n == c->name) return;
+        J ctx = J::obj();
+        guarded([&]() { s.w.write_cell(*c); });
+        session_cell_names[w].push_back(c->name);
+        count("writer_cell");
+        drain_seam_violations(prop, ctx);
+        check_handles(prop, ctx);
+    }
+
+    void op_writer_raw(const J& op) {
+        std::string w = op.gets("w"), slot = op.gets("slot");
+        if (!writers.count(w) || !writers[w].open || !raws.count(slot) || !raws[slot].alive) return;
+        WriterSess& s = writers[w];
+        RawHold& h = raws[slot];
+        std::vector<size_t> sel = raw_selection(h, op.at("pick"));
+        J ctx = J::obj();
+        ctx.set("via", "writer");
+        if (!session_src_canon.count(w)) {
+            canon::CLib sc;
+            ErrorCode ecs = ErrorCode::NoError;
+            if (load_canon(h.src, sc, ecs)) session_src_canon[w] = sc;
+        }
+        for (size_t i : sel) {
+            bool dup = false;
+            for (auto& n : session_raw_names[w]) dup = dup || n == h.names[i];
+            for (auto& n : session_cell_names[w]) dup = dup || n == h.names[i];
+            if (dup) continue;
+            guarded([&]() { s.w.write_rawcell(*h.cells[i]); });
+            session_raw_names[w].push_back(h.names[i]);
+            raw_mark_drained(h, i);
+            count("writer_raw");
+            drain_seam_violations(prop, ctx);
+            check_handles(prop, ctx);
+        }
+    }
+
+    void op_writer_close(const J& op) {
+        std::string w = op.gets("w");
+        if (!writers.count(w) || !writers[w].open) return;
+        WriterSess& s = writers[w];
+        J ctx = J::obj();
+        ctx.set("via", "writer");
+        guarded([&]() { s.w.close(); });
+        s.open = false;
+        count("writer_close");
+        drain_seam_violations(prop, ctx);
+        check_handles(prop, ctx);
+        finfo[s.file].have_dec = false;
+        // the session's file: strict container, raw cells load as in their source, fresh cells as their model
+        gdspeer::Decoded& d = truth(s.file);
+        if (!d.ok || !d.strict_ok) {
+            viol("C17", "session_file_malformed", "the file written by a GdsWriter session is rejected by the independent decoder: " + d.error, ctx);
+        } else {
+            if (session_src_canon.count(w)) compare_copied(s.file, session_raw_names[w], session_src_canon[w], ctx);
+            if (s.model >= 0 && !session_cell_names[w].empty()) {
+                Expect E = expect_gds(s.model, 0);
+                canon::CLib got;
+                ErrorCode ec = ErrorCode::NoError;
+                if (load_canon(s.file, got, ec)) {
+                    for (auto& n : session_cell_names[w]) {
+                        auto a = E.c.cells.find(n);
+                        auto b = got.cells.find(n);
+                        if (a == E.c.cells.end()) continue;
+                        if (b == got.cells.end()) {
+                            viol("C17", "session_cell_missing", "cell '" + n + "' written by write_cell is missing when the session file is loaded", ctx);
+                            break;
+                        }
+                        canon::CLib ea, eb;
+                        ea.precision = eb.precision = 1;
+                        ea.cells[n] = a->second;
+                        eb.cells[n] = b->second;
+                        std::string clause, why;
+                        if (canon::differ(ea, eb, false, clause, why)) {
+                            viol("C17", "session_cell_" + clause, "cell written by a GdsWriter session loads differently from the model: " + why, ctx);
+                            break;
+                        }
+                    }
+                }
+            }
+        }
+        if (s.built.alive) guarded([&]() { s.built.destroy(); });
+        session_raw_names.erase(w);
+        session_cell_names.erase(w);
+        session_src_canon.erase(w);
+        drain_seam_violations(prop, ctx);
+        check_handles(prop, ctx);
+    }
+
+    // ------------------------------------------------------------- in-place timestamp rewrite
+    struct StampWatch {
+        Exec* self;
+        std::string file;
+        std::vector<uint8_t> pre;
+        std::vector<std::pair<uint32_t, uint32_t>> allowed;  // [begin, end)
+        bool bad = false;
+        uint64_t bad_off = 0;
+        uint64_t writes = 0;
+    };
+
+    static void stamp_hook(sim::Handle* h, uint64_t off, const uint8_t* data, size_t n, void* ud) {
+        StampWatch* sw = (StampWatch*)ud;
+        if (h->name != sw->file) return;
+        sw->writes++;
+        const std::vector<uint8_t>& cur = h->file->data;
+        if (cur.size() != sw->pre.size() && !sw->bad) {
+            sw->bad = true;
+            sw->bad_off = cur.size();
+        }
+        for (size_t i = 0; i < n && !sw->bad; i++) {
+            uint64_t pos = off + i;
+            if (pos >= sw->pre.size() || data[i] == sw->pre[pos]) continue;
+            bool ok = false;
+            for (auto& a : sw->allowed)
+                if (pos >= a.first && pos < a.second) ok = true;
+            if (!ok) {
+                sw->bad = true;
+                sw->bad_off = pos;
+            }
+        }
+    }
+
+    void op_stamp(const J& op) {
+        std::string file = op.gets("file");
+        if (!W->fs.exists(file)) return;
+        for (auto& kv : writers)
+            if (kv.second.open && kv.second.file == file) return;
+        gdspeer::Decoded d = truth(file);  // pre-image
+        if (!d.ok) return;
+        FileInfo& fi = finfo[file];
+        J ctx = J::obj();
+        ctx.set("writer", fi.writer);
+        tm nt;
+        if (!tm_from_json(op.at("ts"), nt)) sim::civil_from_time(W->clock.now, &nt);
+        StampWatch sw;
+        sw.self = this;
+        sw.file = file;
+        sw.pre = W->fs.bytes(file);
+        sw.allowed.push_back({d.lib_ts_payload, d.lib_ts_payload + 24});
+        for (auto& sr : d.structs) sw.allowed.push_back({sr.ts_payload, sr.ts_payload + 24});
+        uint64_t cw = 0, cl = 0;
+        if (op.at("fault").k == J::Obj) {
+            // clean run on a scratch copy gives the number of device writes for the modulo rule
+            W->fs.put("/sim/.probe", sw.pre);
+            J clean = op;
+            clean.set("fault", J());
+            set_policy(clean);
+            uint64_t w0 = W->fs.n_dev_write;
+            ErrorCode e0 = ErrorCode::NoError;
+            guarded([&]() { gds_timestamp("/sim/.probe", &nt, &e0); });
+            cw = W->fs.n_dev_write - w0;
+            cl = sw.pre.size();
+            W->fs.files.erase("/sim/.probe");
+            clear_policy();
+        }
+        ErrorCode ec = ErrorCode::NoError;
+        tm old = {};
+        W->fs.write_hook = stamp_hook;
+        W->fs.write_hook_ud = &sw;
+        bool returned = guarded([&]() {
+            set_policy(op, cw, cl);
+            old = gds_timestamp(file.c_str(), &nt, &ec);
+        });
+        clear_policy();
+        W->fs.write_hook = nullptr;
+        W->fs.write_hook_ud = nullptr;
+        fi.have_dec = false;
+        bool faulty = op.at("fault").k == J::Obj;
+        if (faulty) fi.damage = "stamp_torn";
+        count(faulty ? "stamp_torn" : "stamp");
+        res.counters["stamp_device_writes"] += sw.writes;
+        feature_state("stamp", fi.model, faulty, d.structs.size() > 3 ? 3 : d.structs.size());
+        if (sw.bad)
+            viol("C17", "stamp_touches_other_bytes",
+                 "gds_timestamp changed byte " + std::to_string(sw.bad_off) + " of " + file + ", which is outside every BGNLIB/BGNSTR timestamp field (or changed the file length)", ctx);
+        if (returned && !faulty) {
+            if (ec != ErrorCode::NoError) {
+                viol("C17", "stamp_error", std::string("gds_timestamp returned ") + bridge::error_name(ec) + " while rewriting a complete file", ctx);
+            } else {
+                std::array<uint16_t, 6> got = ts6(old), want;
+                for (int i = 0; i < 6; i++) want[i] = d.lib_ts[i];
+                if (got != want)
+                    viol("C17", "stamp_returns_wrong_old", "gds_timestamp returned " + ts_str(got) + " as the previous timestamp, the file stored " + ts_str(want), ctx);
+                gdspeer::Decoded& nd = truth(file);
+                std::array<uint16_t, 6> n6 = ts6(nt);
+                bool all = nd.ok;
+                for (int i = 0; i < 12 && all; i++) all = nd.lib_ts[i] == n6[i % 6];
+                for (auto& t : nd.str_ts)
+                    for (int i = 0; i < 12 && all; i++) all = t[i] == n6[i % 6];
+                if (!all)
+                    viol("C17", "stamp_incomplete", "after gds_timestamp not every BGNLIB/BGNSTR field carries the new timestamp " + ts_str(n6) + " twice", ctx);
+                fi.ts_known = true;
+                fi.ts = n6;
+            }
+        }
+        drain_seam_violations(prop, ctx);
+        check_handles(prop, ctx);
+    }
+
     // bounded liveness after the faults: a small library must still save and load
     void op_canary(const J& op) {
         (void)op;
@@ -1224,13 +1779,37 @@ struct Exec {
             else if (opname == "load_check") op_load_check(op);
             else if (opname == "resave_gds") op_resave_gds(op);
             else if (opname == "peer_check") op_peer_check(op);
+            else if (opname == "info_check") op_info_check(op);
+            else if (opname == "raw_open") op_raw_open(op);
+            else if (opname == "raw_drain") op_raw_drain(op);
+            else if (opname == "raw_clear") op_raw_clear(op);
+            else if (opname == "writer_open") op_writer_open(op);
+            else if (opname == "writer_cell") op_writer_cell(op);
+            else if (opname == "writer_raw") op_writer_raw(op);
+            else if (opname == "writer_close") op_writer_close(op);
+            else if (opname == "stamp") op_stamp(op);
             else op_reader(op);
             res.steps++;
+            sched_hash = sim::Trace::mix(sched_hash, fnv(opname) ^ (uint64_t)expected_open());
         }
+        if (prop == "C17") res.states.insert(sched_hash);
         // end of run: release whatever sessions still hold
         step = (int)ops.a.size();
         opname = "end";
         begin_step("end");
+        for (auto& kv : writers)
+            if (kv.second.open) {
+                guarded([&]() { kv.second.w.close(); });
+                kv.second.open = false;
+                if (kv.second.built.alive) guarded([&]() { kv.second.built.destroy(); });
+            }
+        for (auto& kv : raws)
+            if (kv.second.alive) release_raw(kv.second);
+        {
+            J ctx = J::obj();
+            drain_seam_violations(prop, ctx);
+            check_handles(prop, ctx);
+        }
         for (auto& kv : libs) guarded([&]() { kv.second.free_all(); });
         W->fs.force_close_all();
         res.hash_struct = W->trace.structural;
